@@ -229,9 +229,32 @@ def gen_cached_then_subgraph(rng):
     return ops
 
 
+def gen_multiterm_merge(rng):
+    """the molecule merged in carries several interactions on the same atoms with the same version (multi-term dihedrals): a
+    merge keeps every one of them"""
+    tagc = [700]
+    k0 = rng.sample(range(0, 9), rng.randint(1, 3))
+    k1 = rng.sample(range(0, 9), rng.randint(2, 4))
+    ops = [['NewEmpty', 1], ['AddNodesFrom', 0, [[k, gen_attrs(rng, tagc)] for k in k0]],
+           ['NewEmpty', 1], ['AddNodesFrom', 1, [[k, gen_attrs(rng, tagc)] for k in k1]]]
+    atoms = rng.sample(k1, rng.randint(1, min(3, len(k1))))
+    ver = rng.choice([None, None, 1])
+    t = rng.choice([0, 1])
+    for j in range(rng.randint(2, 3)):
+        ops.append(['AddInteraction', 1, t, {'atoms': list(atoms), 'params': 40 + j, 'version': ver}])
+    if rng.random() < 0.5:
+        ops.append(['AddInteraction', 0, t, {'atoms': [rng.choice(k0)], 'params': 3, 'version': None}])
+    ops.append(['Merge', 0, 1])
+    if rng.random() < 0.4:
+        ops.append(['Merge', 0, 1])
+    return ops
+
+
 def generate(rng, tier):
     n = 330 if tier == 'quick' else 4000
     cases = []
+    for _ in range(20 if tier == 'quick' else 200):
+        cases.append({'ops': gen_multiterm_merge(rng)})
     for _ in range(25 if tier == 'quick' else 300):
         cases.append({'ops': gen_cached_then_subgraph(rng)})
     kinds = ['addnode', 'addnodes', 'rmnode', 'rmnodes', 'addedge', 'addint', 'addorrep', 'rmint', 'copy', 'subgraph',
